@@ -451,7 +451,12 @@ fn process<'tcx>(tcx: TyCtxt<'tcx>, def: LocalDefId, body: &Body<'tcx>) -> Optio
         s.push(']');
     } else {
         let vis = tcx.visibility(did);
-        let v = if vis.is_public() { "pub" } else { "restricted" };
+        let v = match vis {
+            ty::Visibility::Public => "pub",
+            ty::Visibility::Restricted(m) => {
+                if m.is_top_level_module() { "crate" } else { "private" }
+            }
+        };
         let _ = write!(s, ",\"vis\":\"{}\"", v);
         if let Some(im) = tcx.impl_of_assoc(did) {
             let st = tcx.type_of(im).instantiate_identity().skip_norm_wip();
